@@ -45,20 +45,7 @@ Proof.
   exists h', t'. repeat (split; [assumption|]). exact I.
 Qed.
 
-Lemma gen_to_outgroup_l ub h t og :
-  WF h -> abs h = Some t -> In og (ids t) -> og <> t_id t ->
-  (2 <= length (t_kids t))%nat -> NoDup (leaf_taxa t) ->
-  exists h' t', to_hres (Tree_to_outgroup_position HG og ub false h) = HOk h' /\ WF h' /\ abs h' = Some t'
-    /\ (exists k rest, t_kids t' = k :: rest /\ t_id k = og)
-    /\ Permutation (leaf_taxa t) (leaf_taxa t')
-    /\ (forall S, is_usplit t S <-> is_usplit t' S)
-    /\ total_length t' = total_length t
-    /\ (forall a b, dist a b t' = dist a b t).
-Proof.
-  intros W A Hin Hne TK ND. rewrite gen_to_outgroup_position.
-  destruct (C07LinkEdge.heap_to_outgroup_l ub h t og W A Hin Hne TK ND) as [h' [t' [E [W' [A' [_ I]]]]]].
-  exists h', t'. repeat (split; [assumption|]). exact I.
-Qed.
+(* to_outgroup_position / randomly_reorient of the CURRENT source (repair 1c81f78b): Proofs/C07LinkOutgroup.v *)
 
 Lemma gen_randomly_rotate_l perms h t :
   WF h -> abs h = Some t -> NoDup (leaf_taxa t) ->
@@ -73,21 +60,6 @@ Proof.
   intros W A ND OK. rewrite gen_randomly_rotate.
   destruct (C07LinkRot.heap_randomly_rotate_l perms h t W A ND OK) as [h' [t' [E [W' [A' [R' [_ [_ I]]]]]]]].
   exists h', t'. repeat (split; [assumption|]). exact I.
-Qed.
-
-Lemma gen_randomly_reorient_l pick perms ub h t nd :
-  WF h -> abs h = Some t -> nth_error (pre_ids t) pick = Some nd -> is_internal_node nd t ->
-  (2 <= length (t_kids t))%nat -> NoDup (leaf_taxa t) ->
-  (forall h1 t1, HeapOps.reseed_at nd ub true true h = HOk h1 -> abs h1 = Some t1 ->
-                 C07LinkRot.perms_ok (C07LinkRot.rotate_nodes h1 t1) perms h1) ->
-  exists h' t', to_hres (Tree_randomly_reorient HG ([pick] :: perms) ub h) = HOk h' /\ WF h' /\ abs h' = Some t'
-    /\ Permutation (leaf_taxa t) (leaf_taxa t')
-    /\ (forall S, is_usplit t S <-> is_usplit t' S)
-    /\ total_length t' = total_length t
-    /\ (forall a b, dist a b t' = dist a b t).
-Proof.
-  intros W A Hp HI TK ND OK. rewrite gen_randomly_reorient.
-  exact (C07LinkRot.heap_randomly_reorient_l pick perms ub h t nd W A Hp HI TK ND OK).
 Qed.
 
 (* reseed_at: C03's refinement has side conditions on the fuel handed to the generated while loops *)
